@@ -13,7 +13,7 @@
 (***************************************************************************)
 EXTENDS ThOps, Json
 
-CONSTANTS Keys, Lens, Depth, MaxN, Modes, Deviations, Emit
+CONSTANTS Keys, Lens, Depth, MaxN, BigTN, Modes, Deviations, Emit
 
 VARIABLES phase, ct, other, deal, last
 vars == <<phase, ct, other, deal, last>>
@@ -189,6 +189,17 @@ ADecryptShares(es, route) ==     \* route = "direct" (decrypt_with_shares) | "ke
                 expect |-> [out |-> out], ideal |-> IdealWhole(es, deal.t)]
   /\ phase' = "judged" /\ UNCHANGED <<ct, other, deal>>
 
+\* beyond the exhaustive grid: (t,n) up to 255 by subset shape, outcome from the provenance layer alone
+ADecryptSharesBig(t, n, sh, route) ==
+  /\ phase = "made" /\ ct.ops = <<>> /\ "threshold" \in Modes
+  /\ LET ids == ShapeIds(sh, t, n)
+         es == [i \in 1..Len(ids) |-> E(ids[i], ids[i], TRUE)]
+         whole == IdealWhole(es, t) IN
+       last' = [act |-> "DecryptShares", ct |-> CtRec(ct), t |-> t, n |-> n, entries |-> es, route |-> route, layer |-> "ideal",
+                expect |-> [out |-> IF Len(es) < 2 THEN (IF route = "direct" THEN "None" ELSE "Err") ELSE IF whole THEN "Some" ELSE "NotOriginal"],
+                ideal |-> whole]
+  /\ phase' = "judged" /\ UNCHANGED <<ct, other, deal>>
+
 AReset == phase = "judged" /\ phase' = "idle" /\ ct' = NoCt /\ other' = NoCt /\ deal' = NoDeal /\ last' = Quiet
 
 TN == {<<t, n>> \in (2..MaxN) \X (2..MaxN) : t <= n}
@@ -202,6 +213,7 @@ Next ==
   \/ (phase = "made" /\ \E tn \in TN : ASplit(tn[1], tn[2]))
   \/ (phase = "dealt" /\ \E i, j \in 1..deal.n, which \in {"same", "other"}, idsub \in IdSubs : AShareVerify(i, j, which, idsub))
   \/ (phase = "dealt" /\ \E es \in ShareSeqs(deal.n), route \in {"direct", "key"} : ADecryptShares(es, route))
+  \/ (phase = "made" /\ ct.vn = 5 /\ \E tn \in BigTN, sh \in Shapes, route \in {"direct", "key"} : ADecryptSharesBig(tn[1], tn[2], sh, route))
   \/ AReset
 
 Spec == Init /\ [][Next]_vars
